@@ -125,6 +125,14 @@ func c20Enumerate(tier string) []c20Case {
 			cases = append(cases, c20Case{Runs: R, Gens: 0, SolvedAt: solved, Observer: true, Fault: c20Fault{"cancel_in_trial_finished", r, 0}})
 		}
 	}
+	// no trials at all (num_runs = 0): nothing is spawned, evaluated, reported or recorded, and nothing fails
+	for G := 0; G <= 2; G++ {
+		for _, obs := range []bool{true, false} {
+			for _, par := range []bool{false, true} {
+				cases = append(cases, c20Case{Runs: 0, Gens: G, SolvedAt: []int{}, Observer: obs, Parallel: par, Fault: c20Fault{Kind: "none"}})
+			}
+		}
+	}
 	// long runs beyond the enumerated bounds: 5-40 trials of up to 5-35 generations, PRNG-chosen solved patterns (a fixed list, the
 	// same at every seed), fault-free and with one fault at a PRNG-chosen position
 	nLong := 48
@@ -294,7 +302,7 @@ func init() {
 		Run:         runC20,
 		Exhaustive:  true,
 		Required: []string{"cases.none", "cases.eval_error", "cases.cancel_in_eval", "cases.cancel_in_epoch_evaluated", "cases.cancel_in_trial_started",
-			"cases.cancel_in_trial_finished", "cases.cancel_mid_epoch", "cases.parallel", "cases.no_observer", "cases.runner", "runner.stopped_after_interrupt", "cases.eval_error_solved", "cases.eval_error_deadline", "cases.long_runs_of_5_to_40_trials", "cases.trials_preallocated", "cases.experiment_reused_after_longer_run", "observer.is_the_evaluator", "observer.second_object", "observer.stateless_value", "observer.value_with_field", "evaluator.value_typed", "cases.observer_asks_the_running_experiment_for_reports", "trials.solved", "trials.unsolved", "canceled.returned"},
+			"cases.cancel_in_trial_finished", "cases.cancel_mid_epoch", "cases.parallel", "cases.no_observer", "cases.runner", "runner.stopped_after_interrupt", "cases.eval_error_solved", "cases.eval_error_deadline", "cases.long_runs_of_5_to_40_trials", "cases.trials_preallocated", "cases.experiment_reused_after_longer_run", "observer.is_the_evaluator", "observer.second_object", "observer.stateless_value", "observer.value_with_field", "evaluator.value_typed", "cases.observer_asks_the_running_experiment_for_reports", "trials.solved", "trials.unsolved", "canceled.returned", "cases.zero_generations", "cases.zero_trials"},
 	})
 }
 
@@ -539,6 +547,11 @@ func runC20(c *Ctx, idx int) {
 	}
 	if !cs.Observer {
 		c.Count("cases.no_observer", 1)
+	}
+	if cs.Runs == 0 {
+		c.Count("cases.zero_trials", 1)
+	} else if cs.Gens == 0 {
+		c.Count("cases.zero_generations", 1)
 	}
 	start, err := loadShippedGenome("xorstartgenes")
 	if err != nil {
